@@ -19,7 +19,7 @@ import (
 //	           attrs               struct{ M map[string]T `yaotl:",remain"` }
 //	label i                        string   `yaotl:"label<i>,label"`
 //
-// Types: string->string, number->int64|float64, bool->bool, list/set->[]E, map->map[string]E,
+// Types: string->string, number->int64|uint64|float64, bool->bool, list/set->[]E, map->map[string]E,
 // object->struct with cty tags, any/tuple->cty.Value.
 
 var ctyValueType = reflect.TypeOf(cty.Value{})
@@ -31,6 +31,9 @@ func GoType(t Type) reflect.Type {
 	case "number":
 		if t.Int {
 			return reflect.TypeOf(int64(0))
+		}
+		if t.Uint {
+			return reflect.TypeOf(uint64(0))
 		}
 		return reflect.TypeOf(float64(0))
 	case "bool":
@@ -137,6 +140,12 @@ func GoValue(v Val, t Type) reflect.Value {
 				panic("cfggen: non-integer literal for int attribute: " + v.S)
 			}
 			out.SetInt(n)
+		} else if t.Uint {
+			n, err := strconv.ParseUint(v.S, 10, 64)
+			if err != nil {
+				panic("cfggen: literal for uint attribute out of range: " + v.S)
+			}
+			out.SetUint(n)
 		} else {
 			f, _ := cty.MustParseNumberVal(v.S).AsBigFloat().Float64()
 			out.SetFloat(f)
